@@ -1139,6 +1139,15 @@ class TwoDSpectrumBase(DataSaveable):
                                     " 'types'. Tag would be ignored and"+
                                     " information lost")
                 self.set_data_flag(dtype)
+                if self.storage_resolution == "pathways":
+                    # untagged data of a given type are kept as a pathway
+                    # with the tag None; only that entry is incremented
+                    piece = self._d__data.setdefault(dtype, {})
+                    if None in piece:
+                        piece[None] = piece[None] + data
+                    else:
+                        piece[None] = data
+                    return
                 try:
                     odata = self.d__data
                 except:
